@@ -170,6 +170,11 @@ def handle (input impl : Json) : R Reply := do
     (if observes.isEmpty then [] else ["observe-nonempty"]) ++
     (if pbase.any (fun op => match op with | POp.failedPoll _ _ _ => true | _ => false) then ["failed-poll"] else []) ++
     (if pbase.any (fun op => match op with | POp.failedPoll w ps ss => !(failedOps w ps ss).isEmpty | _ => false) then ["failed-poll-processes-logs"] else []) ++
+    (if runs.any (fun r => r.points.any fun p => match lateSplit cfg.window (r.ops.take p.1) with
+          | some (pre, recent) => lateRegime cfg pre recent p.2 probes
+          | none => false) then ["late-regime"] else []) ++
+    (if base.any (fun op => match op with
+          | .perform l => decide (l.confs > 10000) | .stale l => decide (l.confs > 10000) | _ => false) then ["deep-confirmations"] else []) ++
     (if cfg.minConfs > 0 then ["minconfs>0"] else [])
   pure { agree := agree, specModel := sm, specImpl := si,
          diff := if agree then "" else if !agreePolls then s!"polls: model {repr wantPolls} impl {repr gotPolls}"
